@@ -236,23 +236,28 @@ impl Prop for C06 {
                     return out;
                 }
             }
-            // (4) watchers and global flags: true iff >= 1 growth since last asked, then false
+            // (4) watchers and global flags: true iff >= 1 growth since last asked, then false.
+            // They are not asked after every step, so that rewrites of several steps accumulate.
+            let ask = step.order % 3 != 0 || sn + 1 == c.steps.len();
             let any = r.world.cache.as_any_cache();
-            for key in &keys {
+            for key in keys.iter().filter(|_| ask) {
                 let w = r.watches.get_mut(key).unwrap();
-                let expect = w.growths > 0;
+                let expect = w.since_asked > 0;
                 let got = w.watcher.reloaded();
                 let again = w.watcher.reloaded();
                 let g1 = crate::world::typed_reloaded_global(any, key.0, &key.1).unwrap_or(false);
                 let g2 = crate::world::typed_reloaded_global(any, key.0, &key.1).unwrap_or(false);
                 if got != expect || g1 != expect {
-                    out.fail("watcher-mismatch", format!("step {sn}: {key:?} was rewritten {} time(s) since last asked, but ReloadWatcher::reloaded() = {got}, reloaded_global() = {g1}", w.growths));
+                    out.fail("watcher-mismatch", format!("step {sn}: {key:?} was rewritten {} time(s) since last asked, but ReloadWatcher::reloaded() = {got}, reloaded_global() = {g1}", w.since_asked));
                     return out;
                 }
                 if again || g2 {
                     out.fail("watcher-reports-twice", format!("step {sn}: {key:?}: asking again right away still reports a reload (reloaded() = {again}, reloaded_global() = {g2})"));
                     return out;
                 }
+                w.since_asked = 0;
+            }
+            for w in r.watches.values_mut() {
                 w.growths = 0;
             }
             // labels
